@@ -171,6 +171,8 @@ var c18Sections = map[string][]c18Variant{
 		{"plugins:\n  enabled: true\n  chain:\n    - name: gzip\n      config:\n        level: -1\n        min_size: 0\n        content_types: [\"application/json\"]\n    - name: request-id\n    - name: custom-auth\n      config:\n        apiKey: \"secret\"\n", true, "level -1, custom-auth", false},
 		{"plugins:\n  enabled: true\n  chain:\n    - name: size_limit\n      config:\n        max_request_body: 1e6\n        max_response_body: 0x100000\n", true, "exponent and hex numbers", false},
 		{"plugins:\n  enabled: false\n", true, "disabled", false},
+		{"plugins:\n  enabled: true\n  chain:\n    - name: size_limit\n    - name: logging\n    - name: request-id\n    - name: headers\n", true, "plugins without a config block (defaults apply)", true},
+		{"plugins:\n  enabled: true\n  chain:\n    - name: size_limit\n      config:\n    - name: headers\n      config: {}\n", true, "plugins with an empty config block", true},
 		{"plugins:\n  enabled: true\n  chain:\n    - name: size_limit\n      config:\n        max_request_body: 0.5\n", true, "size_limit fractional request limit below 1", true},
 		{"plugins:\n  enabled: true\n  chain:\n    - name: size_limit\n      config:\n        max_request_body: 1000\n        max_response_body: 0.999\n", true, "size_limit fractional response limit below 1", true},
 		{"plugins:\n  enabled: true\n  chain:\n    - name: gzip\n      config:\n        level: 5.7\n        min_size: 0.2\n        content_types: [\"text/\"]\n", true, "gzip fractional numbers", true},
